@@ -20,6 +20,7 @@ package sql
 import (
 	"context"
 	"database/sql"
+	"database/sql/driver"
 	"errors"
 	"flag"
 	"fmt"
@@ -105,6 +106,9 @@ func (xaManager *XAResourceManager) xaTwoPhaseTimeoutChecker() {
 						if err := connectionXA.CloseForce(); err != nil {
 							log.Errorf("Force close the xa xid:%s physical connection fail", connectionXA.txCtx.XID)
 						}
+						// the branch stays prepared in the database; phase two
+						// reaches it over a new connection
+						source.GetKeeper().Delete(key)
 					}
 					return true
 				})
@@ -167,7 +171,15 @@ func (xaManager *XAResourceManager) BranchCommit(ctx context.Context, branchReso
 		return branch.BranchStatusPhasetwoRollbackFailedUnretryable, err
 	}
 
-	if err := connectionProxyXA.XaCommit(ctx, xaID); err != nil {
+	err = connectionProxyXA.XaCommit(ctx, xaID)
+	if errors.Is(err, driver.ErrBadConn) {
+		// the kept connection is gone; the branch is still prepared in the
+		// database and can be finished over a new connection
+		if connectionProxyXA, err = xaManager.finishBranch(ctx, xaID, branchResource); err == nil {
+			err = connectionProxyXA.XaCommit(ctx, xaID)
+		}
+	}
+	if err != nil {
 		log.Errorf("commit xa, resourceId: %s, err %v", branchResource.ResourceId, err)
 		setBranchStatus(xaID.String(), branch.BranchStatusPhasetwoCommitted)
 		return branch.BranchStatusPhasetwoCommitFailedUnretryable, err
@@ -184,7 +196,14 @@ func (xaManager *XAResourceManager) BranchRollback(ctx context.Context, branchRe
 		return branch.BranchStatusPhasetwoRollbackFailedUnretryable, err
 	}
 
-	if err = connectionProxyXA.XaRollbackByBranchId(ctx, xaID); err != nil {
+	err = connectionProxyXA.XaRollbackByBranchId(ctx, xaID)
+	if errors.Is(err, driver.ErrBadConn) {
+		// see BranchCommit
+		if connectionProxyXA, err = xaManager.finishBranch(ctx, xaID, branchResource); err == nil {
+			err = connectionProxyXA.XaRollbackByBranchId(ctx, xaID)
+		}
+	}
+	if err != nil {
 		log.Errorf("rollback xa, resourceId: %s, err %v", branchResource.ResourceId, err)
 		setBranchStatus(xaID.String(), branch.BranchStatusPhasetwoRollbacked)
 		return branch.BranchStatusPhasetwoRollbackFailedUnretryable, err
